@@ -2,6 +2,7 @@
 pub mod bdd;
 pub mod cnf;
 pub mod lru;
+pub mod query;
 pub mod sat;
 pub mod sdd;
 pub mod table;
@@ -14,9 +15,10 @@ static BDD: bdd::BddWorld = bdd::BddWorld;
 static SAT: sat::SatWorld = sat::SatWorld;
 static CNF: cnf::CnfWorld = cnf::CnfWorld;
 static SDD: sdd::SddWorld = sdd::SddWorld;
+static QUERY: query::QueryWorld = query::QueryWorld;
 
 pub fn all() -> Vec<&'static dyn World> {
-    vec![&TABLE, &LRU, &BDD, &SAT, &CNF, &SDD]
+    vec![&TABLE, &LRU, &BDD, &SAT, &CNF, &SDD, &QUERY]
 }
 
 pub fn lookup(name: &str) -> Option<&'static dyn World> {
